@@ -384,16 +384,20 @@ def run_unit(unit_dir, tier, seed, scratch, variants=True):
             if not k.startswith('mutant:'):
                 continue
             r, gmu, mu = val
+            main_names = {f.name(u.name) for f in u.failures}
             fs = [f for f in classify(gmu, r) if f.kind == 'verification']
-            names = [f.name(u.name) for f in fs]
+            names = [nm for nm in (f.name(u.name) for f in fs) if nm not in main_names]
             vr = (r['json'] or {}).get('verification-results', {})
-            killed = bool(fs) and not vr.get('encountered-vir-error', False)
+            if r['json'] is None or vr.get('encountered-vir-error', False) or not vr:
+                u.mutants.append(dict(name=mu['name'], result='invalid-mutant', why=first_error(r)[:200]))
+                continue
+            killed = bool(names)
             exp = mu.get('expect')
             hit = (exp is None) or any(exp in nm for nm in names)
             u.mutants.append(dict(name=mu['name'], result='killed' if killed and hit else ('killed-elsewhere' if killed else 'survived'),
                                   expect=exp, failed=names[:4]))
         surv = [m['name'] for m in u.mutants if m['result'] == 'survived']
-        if surv and u.status == 'ok':
+        if surv and u.status in ('ok', 'fail'):
             u.status, u.reason = 'undecided', 'contract too weak: mutants survive: %s' % ', '.join(surv)
     u.wall = time.time() - t0
     return u
@@ -606,7 +610,7 @@ def report(prop, tier, seed, results, extras, wall, rebaseline, replay):
         if key in seen:
             continue
         seen.add(key)
-        print('KNOWN-FINDING: property=%s %s' % (prop, k['text']))
+        print('KNOWN-FINDING: property=%s %s' % (prop, re.sub(r'^property=\S+\s*', '', k['text'])))
     os.makedirs(os.path.join(VERIF, 'replays', prop), exist_ok=True)
     for u, f, nm in violations:
         rp = os.path.join(VERIF, 'replays', prop, slug(nm) + '.json')
